@@ -161,7 +161,7 @@ theorem scanLoop_step' (t : Bytes) (cs : List Cell) (rest : Bytes) (f n i : Nat)
 /-- one turn of the checker's loop, from what `rtosc_skip_next_printed_arg` returns in this context -/
 theorem countLoop_step' (t : Bytes) (k : Nat) (rest body : Bytes) (f : Nat) (recent : Option Bytes) (num : Int)
     (hstart : TokStart t)
-    (hskip : ∃ r, C11.skipNextPrintedArg ((t ++ rest).length + 2) (t ++ rest) 0 recent true false = .ok r ∧
+    (hskip : ∃ r, C11.skipNextPrintedArg (lookBackFuel (t ++ rest) recent) (t ++ rest) 0 recent true false = .ok r ∧
       r.src = some rest ∧ r.skipped = k)
     (hsk : (if hd (skipSpace rest) ≠ 0 then skipCommentLines ((skipSpace rest).length + 1) (skipSpace rest)
       else (pure (skipSpace rest) : Res Bytes)) = .ok body)
@@ -251,6 +251,10 @@ theorem countPrintedArgVals_first (lead : List Gap) (t : Bytes) (cs : List Cell)
   have hstop : Stop (t ++ rest) := Stop.of_tokStart hstart rest
   have hle := numComments_le_skipSpace lead (t ++ rest)
   have hpos := List.length_pos_iff.mpr hstart.1
+  have hskip : ∃ r, C11.skipNextPrintedArg (lookBackFuel (t ++ rest) none) (t ++ rest) 0 none true false = .ok r ∧
+      r.src = some rest ∧ r.skipped = cs.length := by
+    have e : lookBackFuel (t ++ rest) none = (t ++ rest).length + 2 := by simp [lookBackFuel]
+    rw [e]; exact hskip
   unfold C11.countPrintedArgVals
   show (do let s1 ← skipCommentLines ((skipSpace (gapsBytes lead ++ (t ++ rest))).length + 1)
                 (skipSpace (gapsBytes lead ++ (t ++ rest)))
